@@ -61,6 +61,11 @@ def operations(tier):
             Field("nodes", [TN(), Spread("NodeRec")]), Field("count")]
     out.append(("query over unions and interfaces",
                 Doc(space.used_fragments(sel3, lib) + [Op("query", "Op", sel3, [("p", "Pick", None), ("r", "[Role!]", None)])])))
+    sel5 = [Field("find", [TN(), Inline("http_error", [Field("code"), Field("stamp"), Field("order")]), Inline("User", [Field("name")])],
+                  args=[("input", "$i")]),
+            Field("outcomes", [TN(), Inline("http_error", [Field("code")])])]
+    out.append(("query over types whose names are not CamelCase",
+                Doc([Op("query", "Op", sel5, [("i", "search_input", None), ("o", "sort_order", None), ("t", "date_time", None)])])))
     if tier == "thorough":
         sel4 = [Field("userChanged", [Field("role"), Field("since"), Field("friend", [TN(), Spread("NodeF")])])]
         out.append(("subscription", Doc(space.used_fragments(sel4, lib) + [Op("subscription", "Op", sel4, [("d", "Date", None)])])))
@@ -120,7 +125,7 @@ def run(tier):
             rep.violation("generation_failed", m["label"], r.get("msg"))
             m["case"] = None
             continue
-        prelude = "pub type Date = String;" if "custom_scalars_module" not in m["opts"] else ""
+        prelude = "pub type Date = String; pub type date_time = String; pub type DateTime = String;" if "custom_scalars_module" not in m["opts"] else ""
         if m["opts"].get("extern_enums"):
             prelude += EXTERN_ROLE
         m["case"] = farm.add(Case(r["tokens"], [("op", "Op")], prelude=prelude))
